@@ -2361,6 +2361,12 @@ class VM:
             setter = obj.get_setter(key_str)
             if setter is not None:
                 self._invoke_setter(setter, obj, value)
+            elif obj.get_getter(key_str) is not None:
+                # All code is strict: an accessor (own or inherited) without a setter
+                # rejects the write instead of being shadowed by a new data property
+                raise JSTypeError(
+                    f"Cannot set property {key_str} of #<Object> which has only a getter"
+                )
             else:
                 obj.set(key_str, value)
         elif isinstance(obj, (bool, int, float, str)):
